@@ -310,6 +310,30 @@ func checkSynchronizers(r *Run, p *Prog) {
 		})
 		if pk == dwPkg {
 			r.Ob("C07.R2.sync", pk+": a refusal from any leaseholder clears the merged acknowledgement", p.Position(syncF.Pos()), okClear, "")
+			// the commit end is merged in the direction the engine merges it across channels
+			dist := accumulateDirection(syncF, func(e ast.Expr) bool {
+				sel, ok := ast.Unparen(e).(*ast.SelectorExpr)
+				if !ok || sel.Sel.Name != "End" {
+					return false
+				}
+				inner, ok := ast.Unparen(sel.X).(*ast.SelectorExpr)
+				return ok && fieldVar(syncF, inner) == cycle
+			})
+			engine := ""
+			if cf := p.Func("cesium", "streamWriter", "commit"); cf != nil {
+				var acc types.Object
+				inspectNoLit(cf.Body, func(n ast.Node) bool {
+					if ret, ok := n.(*ast.ReturnStmt); ok && len(ret.Results) == 2 && isNilIdent(cf, ret.Results[1]) {
+						acc = objOf(cf, ret.Results[0])
+					}
+					return true
+				})
+				engine = accumulateDirection(cf, func(e ast.Expr) bool { return acc != nil && objOf(cf, e) == acc })
+			} else {
+				r.Undecide("C07.R2: cesium.streamWriter.commit not found")
+			}
+			r.Ob("C07.R2.sync", pk+": the commit end is merged across leaseholders in the direction the engine merges it across channels", p.Position(syncF.Pos()), dist == engine && dist != "",
+				fmt.Sprintf("distribution keeps the %q end, cesium.streamWriter.commit the %q end: the acknowledged commit end would depend on where the channels live", dist, engine))
 		} else {
 			// the iterator's acknowledgement is merged with the same connective the storage
 			// engine uses across its channel iterators (sibling agreement)
@@ -578,4 +602,65 @@ func ackConnective(fn *FuncNode, isSel func(*ast.SelectorExpr) bool, objs ...typ
 		return "and"
 	}
 	return "none"
+}
+
+// accumulateDirection recognises "if X > ACC { ACC = X }" (max) and its mirror (min) for an
+// accumulator accepted by isAcc; "" when no such statement, "mixed" when both occur.
+func accumulateDirection(fn *FuncNode, isAcc func(ast.Expr) bool) string {
+	dir := ""
+	set := func(d string) {
+		if dir == "" || dir == d {
+			dir = d
+		} else {
+			dir = "mixed"
+		}
+	}
+	ast.Inspect(fn.Body, func(n ast.Node) bool {
+		ifs, ok := n.(*ast.IfStmt)
+		if !ok {
+			return true
+		}
+		// ACC = X in the body
+		var x ast.Expr
+		for _, st := range ifs.Body.List {
+			if as, ok := st.(*ast.AssignStmt); ok && len(as.Lhs) == 1 && len(as.Rhs) == 1 && isAcc(as.Lhs[0]) {
+				x = as.Rhs[0]
+			}
+		}
+		if x == nil {
+			return true
+		}
+		xs := types.ExprString(x)
+		for _, atom := range conjuncts(ifs.Cond) {
+			be, ok := ast.Unparen(atom).(*ast.BinaryExpr)
+			if !ok {
+				continue
+			}
+			var xLeft bool
+			switch {
+			case types.ExprString(be.X) == xs && isAcc(be.Y):
+				xLeft = true
+			case types.ExprString(be.Y) == xs && isAcc(be.X):
+				xLeft = false
+			default:
+				continue
+			}
+			switch be.Op {
+			case token.GTR, token.GEQ:
+				if xLeft {
+					set("max")
+				} else {
+					set("min")
+				}
+			case token.LSS, token.LEQ:
+				if xLeft {
+					set("min")
+				} else {
+					set("max")
+				}
+			}
+		}
+		return true
+	})
+	return dir
 }
